@@ -232,6 +232,8 @@ def run(ctx):
     module_state(ctx)
     per_call_state(ctx)
     class_level_containers(ctx)
+    r.rule("R12.5", "factory caches key on the full keyword arguments their value is built from", floor=1)
+    lossy_cache_keys(ctx, "R12.5")
 
 
 def _owner_phases(pm, attr):
@@ -430,6 +432,61 @@ def module_state(ctx):
                         {"methods": hit}, detail={"singleton": name, "class": cls.name, "mutating_methods": sorted(writers),
                                                   "methods_called": sorted(called)})
     r.extra["module_level_containers"] = sorted("%s::%s" % k for k in containers)
+
+
+def lossy_cache_keys(ctx, rid):
+    """A factory cache `cache[..][key] = factory(.., **kwargs)` must key on everything the cached value depends on.  A key
+    component computed from a mapping / sequence parameter by a projection that drops information (its key names only, its
+    length, ...) while the value is computed from the whole parameter makes two different requests share one entry
+    (getTreeBuilder("etree", fullTree=True) and fullTree=False would return the same class)."""
+    r = ctx.r
+    n = 0
+    for f in ctx.repo.all_functions(include_unruled=False):
+        star = {a.arg for a in ([f.node.args.vararg] if f.node.args.vararg else []) + ([f.node.args.kwarg] if f.node.args.kwarg else [])}
+        if not star:
+            continue
+        stores = [s for s in walk_no_nested(f.node) if isinstance(s, ast.Assign) and isinstance(s.targets[0], ast.Subscript)]
+        if not stores:
+            continue
+        assigns = {s.targets[0].id: s.value for s in walk_no_nested(f.node) if isinstance(s, ast.Assign) and len(s.targets) == 1
+                   and isinstance(s.targets[0], ast.Name)}
+        for st in stores:
+            keys, base = [], st.targets[0]
+            while isinstance(base, ast.Subscript):
+                keys.append(base.slice)
+                base = base.value
+            key_exprs = [assigns.get(k.id, k) if isinstance(k, ast.Name) else k for k in keys]
+            # does the stored value depend on a star parameter?
+            def depends(expr, seen=()):
+                for x in ast.walk(expr):
+                    if isinstance(x, ast.Name):
+                        if x.id in star:
+                            return x.id
+                        if x.id in assigns and x.id not in seen:
+                            d = depends(assigns[x.id], seen + (x.id,))
+                            if d:
+                                return d
+                return None
+            used = {p for p in star if any(isinstance(x, ast.Name) and x.id == p for a in assigns.values() for x in ast.walk(a))
+                    or depends(st.value) == p}
+            for p in sorted(used):
+                comps = [e for e in key_exprs if any(isinstance(x, ast.Name) and x.id == p for x in ast.walk(e))]
+                if not comps:
+                    continue
+                n += 1
+                kwarg = f.node.args.kwarg is not None and f.node.args.kwarg.arg == p
+                full = any(norm(e) == p or ("%s.items()" % p) in norm(e) for e in comps)
+                lossy = [norm(e) for e in comps if norm(e) in ("tuple(sorted(%s))" % p, "tuple(%s)" % p, "tuple(%s.keys())" % p, "sorted(%s)" % p,
+                                                               "frozenset(%s)" % p, "len(%s)" % p, "bool(%s)" % p, "tuple(sorted(%s.keys()))" % p)]
+                key = "cache-key::%s::%s" % (f.qual, p)
+                r.idiom(rid, full, key, "%s:%d" % (f.module.rel, st.lineno), "cache key component for %s not recognised: %s" % (p, [norm(e) for e in comps]),
+                        wrong=[(kwarg and bool(lossy) and not full,
+                                "%s caches its result under `%s`, which keeps only the names of the keyword arguments although the cached "
+                                "value is built from their values: two requests that differ only in a keyword value (fullTree=True / "
+                                "fullTree=False) share one cache entry" % (f.qual, lossy[0] if lossy else ""))],
+                        detail={"function": f.qual, "parameter": p, "key_components": [norm(e) for e in comps]})
+    if n < 1:
+        raise AnalysisError("%s: no factory cache keyed on a star parameter found" % rid)
 
 
 def _value_determined_by(f, val, key_names):
